@@ -849,3 +849,11 @@ impl W {
 pub fn w_proj(x: &W) -> String {
     format!("[{},{}]", x.0, x.1)
 }
+
+/// identity projection: `<X as Idt>::T` is `X` spelled as a qualified path
+pub trait Idt {
+    type T;
+}
+impl<X> Idt for X {
+    type T = X;
+}
